@@ -384,7 +384,7 @@ GUARD_ATOMS = {
     'other.has_allocation': ('(hasAllocation e.constEval e.oN e.oCap)', 'bool'),
     'count': ('e.count', 'nat'), 'new_size': ('e.newSize', 'nat'), 'request': ('e.request', 'nat'),
     'num_insert': ('e.numInsert', 'nat'), 'tail_size': ('e.tailSize', 'nat'), 'offset': ('e.offset', 'nat'),
-    'minimum_required_capacity': ('e.request', 'nat'), 'n': ('e.request', 'nat'),
+    'minimum_required_capacity': ('e.request', 'nat'), 'n': ('e.request', 'nat'), 'new_capacity': ('e.newCap', 'nat'),
     'std::is_constant_evaluated': ('e.constEval', 'bool'),
     'allocator_ref': ('e.alloc', 'alloc'), 'other.allocator_ref': ('e.oAlloc', 'alloc'), 'alloc': ('e.argAlloc', 'alloc'),
 }
@@ -611,7 +611,7 @@ def gen_guards(h, report):
            '  size : Nat := 0\n  cap : Nat := 0\n  N : Nat := 0\n  maxSize : Nat := 0',
            '  oSize : Nat := 0\n  oCap : Nat := 0\n  oN : Nat := 0',
            '  count : Nat := 0\n  newSize : Nat := 0\n  request : Nat := 0\n  numInsert : Nat := 0\n  tailSize : Nat := 0',
-           '  offset : Nat := 0\n  pos : Nat := 0',
+           '  offset : Nat := 0\n  pos : Nat := 0\n  newCap : Nat := 0',
            '  alloc : Nat := 0\n  oAlloc : Nat := 0\n  argAlloc : Nat := 0',
            '  constEval : Bool := false\n  sameObject : Bool := false\n']
     names = []
